@@ -3,6 +3,7 @@ mod common;
 mod props;
 mod real;
 mod refmodel;
+mod sched;
 mod universe;
 
 use common::Tier;
@@ -28,6 +29,7 @@ fn main() {
                 "C01" => props::tok::run(props::tok::Which::C01, tier),
                 "C02" => props::tok::run(props::tok::Which::C02, tier),
                 "C03" => props::tok::run(props::tok::Which::C03, tier),
+                "C04" => props::c04::run(tier),
                 _ => usage(),
             };
             std::process::exit(code);
